@@ -1,6 +1,7 @@
 (* C01 - Requests reach only upstreams of the addressed endpoint, from any node. *)
 From Coq Require Import List String Ascii NArith ZArith Bool.
 From Piko Require Import Base.Maps Base.Strs Proxy.Endpoint Proxy.Http Proxy.Route ProxyP.Final.
+From Piko Require Upstream.Manager Compose.EndToEnd Compose.Settled.
 Import ListNotations.
 Open Scope string_scope. Open Scope list_scope.
 
@@ -37,6 +38,39 @@ Theorem C01_settled :
          (exists k u rs, res_out r = Served k u rs /\ u_ep u = ep /\ registered_on c k u))
         /\ ((forall m, In m c -> has_local m ep = false) <-> res_out r = Status 502)).
 Proof. exact settled_final. Qed.
+
+(* [settled] is not just assumed: it follows from the lower layers (Compose/EndToEnd.v, Compose/Settled.v). A [site] is
+   one server node seen through every model (proxy registry, upstream manager, gossip state, watcher fold, syncer
+   table). [glued]: the layers of one node fit together the way syncer.go and manager.go build them (the node's own
+   gossip state is the one its manager writes; its routing table follows its gossip state: the conclusions of
+   C04_fold and C14; the manager state is reachable: C05/C15's invariant). [converged]: every view of another member
+   holds exactly that member's own entries and nobody is held as left/unreachable (C03_converged_views with the id
+   closure invariant). Then the proxy model's cluster is settled ... *)
+Theorem C01_settled_from_convergence :
+  forall addr_of sites,
+  (forall a, In a sites -> Compose.Settled.glued addr_of a) ->
+  (forall a, In a sites -> Compose.Settled.converged sites a) ->
+  NoDup (map Compose.Settled.st_id sites) ->
+  settled (map Compose.Settled.pnode_of sites).
+Proof. exact Compose.Settled.settled_from_convergence. Qed.
+
+(* ... and therefore: a client request for endpoint E entering at ANY node is handed to an upstream registered for E
+   whenever some node's MANAGER holds one (C05: registered = connected), and is answered 502 when none does. *)
+Theorem C01_end_to_end :
+  forall addr_of sites,
+  (forall a, In a sites -> Compose.Settled.glued addr_of a) ->
+  (forall a, In a sites -> Compose.Settled.converged sites a) ->
+  NoDup (map Compose.Settled.st_id sites) ->
+  wf_cluster (map Compose.Settled.pnode_of sites) ->
+  forall (e : env) (entry : nat) (pa : node) (rq : request),
+  e_keep e = true -> nth_error (map Compose.Settled.pnode_of sites) entry = Some pa -> pre_ok e rq -> is_forwarded rq = false ->
+  let ep := addressed_endpoint rq in
+  let r := deliver (map Compose.Settled.pnode_of sites) e entry rq in
+  ((exists b, In b sites /\ (0 < Upstream.Manager.registered_count ep (Compose.Settled.st_ms b))%nat) ->
+     reaches (map Compose.Settled.pnode_of sites) ep r) /\
+  ((forall b, In b sites -> Upstream.Manager.registered_count ep (Compose.Settled.st_ms b) = 0%nat) ->
+     r = fin (Status 502) [EInvoke entry]).
+Proof. exact Compose.Settled.end_to_end. Qed.
 
 (* the same for the TCP route /_piko/v1/tcp/:id : the endpoint is the path parameter, whatever Host and
    x-piko-endpoint say *)
@@ -76,3 +110,5 @@ Print Assumptions C01_only_addressed_endpoint.
 Print Assumptions C01_settled.
 Print Assumptions C01_tcp_route.
 Print Assumptions C01_refuted_pinned.
+Print Assumptions C01_settled_from_convergence.
+Print Assumptions C01_end_to_end.
